@@ -58,6 +58,7 @@ def run(prop, tier):
     c.deadline = 110 if tier == "quick" else 1500
     c.assumptions = ["oracles (Floyd-Warshall, union-find, all-simple-cycles reference) are independent of parmcb and exact on integer/dyadic weights"]
     binary = _build()
+    c.builds_done()
     plan = sp["quick"] + (sp["thorough"] if tier == "thorough" else [])
     for bound, arglists in plan:
         for args in arglists:
